@@ -2,6 +2,7 @@ SPECIFICATION Spec
 CONSTANTS
   GetTagSteps = 1
   CommitSnapshots = TRUE
+  CommitSerialized = TRUE
   TwoPhaseCommit = TRUE
   Prog <- ProgRB
 INVARIANTS Linearizable StoredMatchesKey TagNeverFalselyMissing
